@@ -8,6 +8,9 @@ TB_SCHED = ("trusted: CPython, z3, networkx; the nondeterministic environment mo
             "concurrent.futures.wait, asyncio.ensure_future/wait/run_in_executor, contextvars.Context.run) stands in for the real pool and "
             "event loop; node functions are total and side-effect free; identifiers are concrete; bounded by N nodes per DAG")
 
+TB_REAL = ("trusted: CPython, z3, networkx; the real scheduler runs on the real ThreadPoolExecutor / event loop with main-thread nodes; node functions "
+           "are uninterpreted terms; identifiers are concrete; bounded by N nodes per DAG")
+
 CHECKS = {
     "C02": ("model_checking", "3.4", "bounded symbolic execution (z3) of the real scheduler under a nondeterministic pool/event-loop model",
             "Every DAG shape with N<=3 nodes (N=4 thorough), every resource assignment, one activation edge (node result or DAG input), symbolic "
@@ -35,6 +38,16 @@ CHECKS = {
     "C17": ("model_checking", "3.4", "bounded symbolic execution (z3) of the real scheduler in both flavours",
             "Sync and async flavour explored over the same shapes/resources/schedules: same entered set and same returned terms as the plain-Python reference; "
             "with only async-thread nodes in flight the scheduler waits in the awaitable wait.", TB_SCHED),
+    "C07": ("model_checking", "6 (C07)", "bounded symbolic execution (z3) of the real graph construction with symbolic priorities vs. the documented formula",
+            "All DAG shapes with N<=4 (N=5 thorough) x all labelings (iteration-order proxy) with unbounded symbolic priorities: z3 proves table[i] = p_i + sum over distinct descendants after construction, "
+            "after config_from_dict (all / one node), and for every node of an executor graph (target/exclude/root selection, debug leaf with RUN_DEBUG_NODES on); with max_concurrency=1 and pairwise distinct "
+            "compound priorities the start order is the unique list schedule.", TB_REAL),
+    "C12": ("model_checking", "6 (C12)", "bounded symbolic execution of the real selection code vs. an independent closure specification, values as z3 terms",
+            "All shapes with N=3 x all (R, X, T) from {absent, [], singletons, pairs, shared tag, unknown alias} x alias form (reference, id, tag, tag clashing with an id): executor graph, executed set and returned "
+            "terms equal the documented closure; invalid selections raise ValueError before anything runs.", TB_REAL),
+    "C13": ("model_checking", "6 (C13)", "bounded symbolic execution of the real debug-node handling vs. the property's rules",
+            "All shapes with N=3 (N=4 thorough) x every debug placement x RUN_DEBUG_NODES on/off x call / executor(target|exclude|root) / setup x one activation edge: invalid placements are rejected at build; "
+            "flag off: no debug node entered; flag on: whole call runs each debug node once, pulled-in debug nodes have all inputs; non-debug values equal the reference in both settings.", TB_REAL),
 }
 
 NA_REASON = "check not built yet (work in progress)"
